@@ -174,18 +174,49 @@ func solveOne(file string, cfg SolveCfg) *SolveResult {
 		secs                float64
 	}
 	res := make(chan ans, len(solvers))
-	for _, sd := range solvers {
-		sd := sd
+	start := func(sd solverDef) {
 		go func() {
 			st, out, secs := runSolver(ctx, sd, file, cfg.TimeoutS)
 			res <- ans{sd.Name, st, out, secs}
 		}()
 	}
+	// stage 1: z3 5.1 and cvc5; stage 2 (after a grace period, or when both gave up): z3 4.8 and the bit-blast pipeline
+	var stage1, stage2 []solverDef
+	for _, sd := range solvers {
+		if sd.Name == "z3-new" || sd.Name == "cvc5" {
+			stage1 = append(stage1, sd)
+		} else {
+			stage2 = append(stage2, sd)
+		}
+	}
+	if cfg.All {
+		stage1 = append(stage1, stage2...)
+		stage2 = nil
+	}
+	for _, sd := range stage1 {
+		start(sd)
+	}
+	running := len(stage1)
+	grace := time.After(time.Duration(cfg.TimeoutS) * time.Second / 5)
+	stage2Started := len(stage2) == 0
 	final := &SolveResult{Status: "unknown", All: map[string]string{}}
 	var best *ans
 	t0 := time.Now()
-	for i := 0; i < len(solvers); i++ {
-		a := <-res
+	for running > 0 {
+		var a ans
+		select {
+		case a = <-res:
+			running--
+		case <-grace:
+			if !stage2Started {
+				stage2Started = true
+				for _, sd := range stage2 {
+					start(sd)
+					running++
+				}
+			}
+			continue
+		}
 		final.All[a.solver] = a.status
 		if a.status == "unsat" || a.status == "sat" {
 			if best == nil {
@@ -203,6 +234,13 @@ func solveOne(file string, cfg SolveCfg) *SolveResult {
 			}
 		} else if final.Output == "" && a.status == "error" {
 			final.Output = a.solver + ": " + firstLines(a.out, 5)
+		}
+		if running == 0 && !stage2Started && best == nil {
+			stage2Started = true
+			for _, sd := range stage2 {
+				start(sd)
+				running++
+			}
 		}
 	}
 	final.Seconds = time.Since(t0).Seconds()
